@@ -146,7 +146,22 @@ fn probes() -> Vec<[R; 3]> {
 
 /// unit quaternions acting on vectors
 fn action<T: Tier>(rep: &mut Report) {
-    let uq = alphabet::uq(1);
+    let mut uq = alphabet::uq(1);
+    // unit quaternions with a tiny vector part (small rotations) or a tiny scalar part (nearly half turns):
+    // (4^j - 1, 2^(j+1), 0, 0)/(4^j + 1) in every arrangement - where a "the vector part is numerically zero" short cut acts
+    for j in if T::EXACT { vec![5u32, 8] } else { vec![5u32, 8, 13, 20, 27] } {
+        let (a, b, d) = ((1i64 << (2 * j)) - 1, 1i64 << (j + 1), (1i64 << (2 * j)) + 1);
+        for big in 0..4 {
+            for small in 0..4 {
+                if small != big {
+                    let mut t = [0i64; 4];
+                    t[big] = a;
+                    t[small] = if (big + small) % 2 == 0 { b } else { -b };
+                    uq.push((t, d));
+                }
+            }
+        }
+    }
     let ps = alphabet::uq(0);
     let ps: Vec<_> = ps.iter().step_by(ps.len() / 6).copied().collect();
     let vs = probes();
@@ -175,8 +190,14 @@ fn action<T: Tier>(rep: &mut Report) {
             let unit_defect = (model::qnorm2(mq).approx() - 1.0).abs();
             let slack = 1.0 + unit_defect / T::U.max(1e-300) / K_TOL * 4.0;
             eq_vc::<T, 3>(ctx, &key("mul_vector/sandwich"), got, sw, if T::EXACT { 1.0 } else { slack });
-            same_slice(ctx, &key("rotate_vector"), &v3(cq.rotate_vector(cv)), &got);
-            same_slice(ctx, &key("rotate_point"), &p3(cq.rotate_point(mk_p3(v))), &got);
+            // Rotation::rotate_vector / rotate_point of a unit quaternion: the same rotation (any correct evaluation of it)
+            if T::EXACT {
+                same_slice(ctx, &key("rotate_vector"), &v3(cq.rotate_vector(cv)), &got);
+                same_slice(ctx, &key("rotate_point"), &p3(cq.rotate_point(mk_p3(v))), &got);
+            } else {
+                eq_vc::<T, 3>(ctx, &key("rotate_vector"), v3(cq.rotate_vector(cv)), sw, slack);
+                eq_vc::<T, 3>(ctx, &key("rotate_point"), p3(cq.rotate_point(mk_p3(v))), sw, slack);
+            }
             // length preserved
             let l2 = model::vdot(mv, mv);
             let got_l2 = (cq * cv).magnitude2();
@@ -223,7 +244,7 @@ fn action<T: Tier>(rep: &mut Report) {
             ctx.out(&r);
             let got = v3(mk_q(q) * mk_v3(v));
             eq_v::<T, 3>(ctx, &key("mul_vector/formula"), got, formula(lq::<T>(q), lift_v(v)));
-            same_slice(ctx, &key("rotate_vector"), &v3(mk_q(q).rotate_vector(mk_v3(v))), &got);
+            // (rotate_vector of a non-unit quaternion is not fixed by the statement)
         },
     );
 }
@@ -236,12 +257,12 @@ fn invert_magnitudes<T: Tier>(rep: &mut Report) {
     let uq = alphabet::uq(rep.pick(0, 1));
     let nb = 3;
     // (numerator, denominator) of the scale: 2^-40 .. 2^40 and 1 + 2^-k
-    let scales: Vec<(i64, i64)> = vec![(1, 1), (1, 1 << 40), (1, 1 << 24), (1, 1 << 12), (1 << 12, 1), (1 << 24, 1), (1 << 40, 1), ((1 << 10) + 1, 1 << 10), ((1 << 20) + 1, 1 << 20), ((1 << 20) - 1, 1 << 20), (1, 100), (3, 1000)];
+    let scales: Vec<(i64, i64)> = vec![(1, 1), (1, 1 << 40), (1, 1 << 24), (1, 1 << 12), (1 << 12, 1), (1 << 24, 1), (1 << 40, 1), ((1 << 10) + 1, 1 << 10), ((1 << 20) + 1, 1 << 20), ((1 << 20) - 1, 1 << 20), ((1 << 30) + 1, 1 << 30), ((1 << 30) - 1, 1 << 30), ((1 << 15) + 1, 1 << 15), (1, 100), (3, 1000)];
     let n = uq.len() + nb;
     rep.cases(
         "invert/magnitudes",
         T::NAME,
-        &format!("({} rational unit quaternions + {nb} generic ones) x scales {{1, 2^+-12, 2^+-24, 2^+-40, 1 +- 2^-20, 1 + 2^-10, 1/100, 3/1000}}", uq.len()),
+        &format!("({} rational unit quaternions + {nb} generic ones) x scales {{1, 2^+-12, 2^+-24, 2^+-40, 1 +- 2^-30, 1 +- 2^-20, 1 + 2^-15, 1 + 2^-10, 1/100, 3/1000}}", uq.len()),
         n * scales.len(),
         Guard::states(50).distinct(50),
         |i, ctx| {
